@@ -974,7 +974,7 @@ func MutexLock(ms *MutexState, mu *sync.Mutex) {
 
 // MutexTryLocked records a successful TryLock.
 func MutexTryLocked(ms *MutexState) {
-	t := Cur()
+	t := curOrAdopt()
 	if t == nil {
 		return
 	}
